@@ -14,7 +14,8 @@ RULE = ("deterministic un-averaged problems: random runs with a heavy share of c
         "injected in the acceptance test, at calls spread over a reference run). Oracle: soln.obj <= every recomputed objective sum(r^2)+h(x) of the history; soln.obj <= f(first "
         "call); final obj <= every run's returned obj; at every iteration min(incumbent, saved slot) <= best recorded so far. "
         "Non-trivial = run that ended at an exit site reached while holding a just-evaluated point not yet installed in the model "
-        "(the only moment a point can be lost); distinct by (exit site, configuration hash)")
+        "(the only moment a point can be lost); distinct by (exit site, configuration hash)"
+        ' Second session: un-logged references; batch initialisation with a re-used result buffer; growing with more than n directions; calling forms sampled.')
 ASSUMPTIONS = ["objective is deterministic and evaluated once per point (checked: every point has one sample)",
                "comparison slack 1e-12 relative (1e-9*(1+|obj|) on the h part, which dfols evaluates at the internally rounded x)"]
 NENUM = {"quick": 90, "thorough": 1800}
